@@ -314,6 +314,7 @@ def run(ctx, tier, seed, shard, nshards):
         constructor_cases(ctx)
         plain_attribute_cases(ctx)
         metaclass_name_cases(ctx)
+        shared_decorator_cases(ctx)
         for case in multi_base_matrix():
             D.run_one(ctx, case, judge, exclude=exclude, nontrivial=nontrivial)
         ctx.count("multi_base_matrix_cells", 7 * 64)
@@ -544,6 +545,85 @@ def metaclass_name_cases(ctx, only=None):
                      "%s (and an overriding sub-class weakening it): expected %r, got %r" % (label, want, got))
 
 
+def shared_decorator_cases(ctx, only=None):
+    """One decorator OBJECT (`positive = icontract.require(...)`) applied to several functions: the base's member and the
+    override both carry the very same contract object, at any position of their stacks. The effective precondition is
+    still (all of the base's) OR (all of the override's own); the effective postcondition is every one of both.
+    Enumerated: base stack (1..2 of 3 shared decorator objects, ordered) x override stack (0..2, ordered) x all 8 truth
+    assignments, for preconditions and for postconditions."""
+    import itertools
+    import icontract
+
+    T = [True, True, True]
+
+    def mk(i, param):
+        # (defs, not lambdas: a lambda stated outside a decorator line is declared unsupported by the message builder)
+        ns = {"T": T}
+        exec("def cond_%s(%s):\n    return T[%d]" % ("abc"[i], param, i), ns)
+        return ns["cond_" + "abc"[i]]
+
+    stacks = [()] + [p for r in (1, 2) for p in itertools.permutations(range(3), r)]
+    for what in ("require", "ensure"):
+        if what == "require":
+            decos = [icontract.require(mk(i, "x"), "shared-%d" % i) for i in range(3)]
+        else:
+            decos = [icontract.ensure(mk(i, "result"), "shared-%d" % i) for i in range(3)]
+        for bstack, sstack in itertools.product(stacks[1:], stacks):
+            key = [what, list(bstack), list(sstack)]
+            if only and only != key:
+                continue
+            entered = []
+
+            def bm(self, x):
+                entered.append("base")
+                return x
+
+            def sm(self, x):
+                entered.append("sub")
+                return x
+
+            for i in bstack:  # applied bottom-up
+                bm = decos[i](bm)
+            for i in sstack:
+                sm = decos[i](sm)
+            try:
+                Base = type(icontract.DBC)("Base", (icontract.DBC,), {"m": bm})
+                Sub = type(icontract.DBC)("Sub", (Base,), {"m": sm})
+            except BaseException as e:  # noqa
+                ctx.fail("shared-decorator|%s|definition" % what, {"shared_decorator_case": key},
+                         "%s objects shared by base stack %r and override stack %r: class creation raised %s: %s" % (
+                             what, bstack, sstack, type(e).__name__, e))
+                continue
+            bad = []
+            for truth in itertools.product((True, False), repeat=3):
+                T[:] = truth
+                for cls, own in ((Base, None), (Sub, sstack)):
+                    if what == "require":
+                        accept = all(truth[i] for i in bstack) or (bool(own) and all(truth[i] for i in own))
+                    else:
+                        accept = all(truth[i] for i in bstack) and all(truth[i] for i in (own or ()))
+                    del entered[:]
+                    try:
+                        cls().m(1)
+                        got = "accepted"
+                    except icontract.ViolationError:
+                        got = "rejected"
+                    except BaseException as e:  # noqa
+                        got = "%s: %s" % (type(e).__name__, e)
+                    body_ok = (entered == ["base" if own is None else "sub"]) if (accept or what == "ensure") else entered == []
+                    if got != ("accepted" if accept else "rejected") or not body_ok:
+                        bad.append((cls.__name__, truth, got, list(entered)))
+            T[:] = [True] * 3
+            ctx.case(["shared-decorator"] + key, bool(set(bstack) & set(sstack)),
+                     sample={"directed": "shared %s objects: base stack %r, override stack %r" % (what, bstack, sstack)})
+            ctx.count("directed:shared-decorator-cases")
+            if bad:
+                ctx.fail("shared-decorator|%s|%s" % (what, "overlap" if set(bstack) & set(sstack) else "disjoint"),
+                         {"shared_decorator_case": key},
+                         "%s decorator objects shared among functions, base stack %r, override stack %r (bottom-up): wrong verdict "
+                         "for (class, truth of the three conditions, outcome, bodies entered) %r" % (what, bstack, sstack, bad[:4]))
+
+
 def structural(ctx):
     """Inherited members that are not overridden are the provider's very function object, with its lists."""
     import icontract
@@ -591,6 +671,11 @@ def structural(ctx):
 
 
 def replay(ctx, case):
+    if case.get("shared_decorator_case"):
+        before = ctx.evaluations
+        shared_decorator_cases(ctx, only=case["shared_decorator_case"])
+        ctx.evaluations = before + 1
+        return
     if case.get("metaclass_name_case"):
         before = ctx.evaluations
         metaclass_name_cases(ctx, only=case["metaclass_name_case"])
